@@ -23,7 +23,7 @@ Proof. cbn [astep]. unfold glive. rewrite set_kids_len, set_kids_free. tauto. Qe
 
 Lemma step_Dnext fuel : D_objargs tbls fuel -> D_name tbls fuel -> D_next tbls (S fuel).
 Proof.
-  intros IHo IHn s g top rest H I0 H0 Est Hroom HTM. cbn [parseNextObject].
+  intros IHo IHn s g top rest H I0 H0 Est Hroom HTM Hnnp. cbn [parseNextObject].
   pose proof (fi_rok _ _ H) as Hrok. pose proof (roomD_lp _ _ Hroom) as Hlp.
   pose proof (fi_R _ _ H) as HR. pose proof (R_gwf _ _ HR) as Hwf.
   pose proof (scope_topD _ _ _ _ H Est) as Htop.
@@ -75,7 +75,7 @@ Proof.
       cbn [o_opcode o_infoIndex set_amlOffset] in E4, E4'. split; congruence. }
     destruct Hp4 as (po4 & Hpo4 & Eop4 & Eii4).
     assert (HTM4 : TM (eq p) s4 g4).
-    { eapply (TM_frame2 NoX (eq p) NoP (eq top) NoP s g s4 g4 Hwf HR HTM F4); try (intros; contradiction); try apply Eok_NoP.
+    { eapply (TM_frame2 NoX (eq p) NoP (eq top) NoP s g s4 g4 Hwf HR HTM F4); try (intros; contradiction); try apply Eok_NoP; [intros i <-; exact Hnnp|].
       intros m mo Hm Hmop Hnl. left.
       assert (Hl4m : glive g4 m) by (apply (R_live_glive _ _ (fi_R _ _ H4)); exists mo; split; [exact Hm|rewrite Hmop; discriminate]).
       apply glive_append in Hl4m. destruct (Hlv2 m Hl4m) as [F|F]; [contradiction|symmetry; exact F]. }
@@ -117,6 +117,7 @@ Proof.
     eapply wp_weaken; [apply (IHn s1 g top rest H1 I1 H0 Est1)| |].
     + unfold roomD in *. lia.
     + eapply TM_tree_eq; [exact HTM|reflexivity].
+    + exact Hnnp.
     + auto.
     + intros res s' (g' & G1 & G2 & G3 & G4 & _ & G5). exists g'. split; [exact G1|].
       split; [eapply ExtD_trans; [eapply at_ExtD; [exact A1|apply gext_refl]|exact G2]|].
